@@ -120,6 +120,10 @@ type caseState struct {
 	arrivals    atomic.Int64 // steering counter of concurrent batches
 	unattrib    atomic.Int64 // CreateScope calls the spy could not attribute to a request
 
+	providerClosed atomic.Bool
+	appScope       godi.Scope // AppCtx cases: the application-level scope (set before any request)
+	appSvc         *ReqSvc    // the application scope's own scoped instance
+
 	mu        sync.Mutex
 	reqs      map[string]*reqState
 	byScope   map[godi.Scope][]*inst
@@ -183,6 +187,20 @@ func (cs *caseState) instancesOf(sc godi.Scope) []*inst {
 	return append([]*inst(nil), cs.byScope[sc]...)
 }
 
+// appOwner is the pseudo request id that owns the application scope's instances.
+const appOwner = -100
+
+// claimScope records that request req was served with scope sc (Direct cases: no spy).
+func (cs *caseState) claimScope(req int, sc godi.Scope) {
+	cs.mu.Lock()
+	if o, dup := cs.scopeOwn[sc]; !dup {
+		cs.scopeOwn[sc] = req
+	} else if o != req && len(cs.shared) < 8 {
+		cs.shared = append(cs.shared, fmt.Sprintf("scope seen by request %d was already seen by request %d", req, o))
+	}
+	cs.mu.Unlock()
+}
+
 // sawInst records that request req observed instance id; a second request observing the same
 // scoped instance is the "shared between requests" refutation.
 func (cs *caseState) sawInst(req int, i *inst) {
@@ -193,7 +211,11 @@ func (cs *caseState) sawInst(req int, i *inst) {
 	if o, ok := cs.instOwner[i.id]; !ok {
 		cs.instOwner[i.id] = req
 	} else if o != req && len(cs.shared) < 8 {
-		cs.shared = append(cs.shared, fmt.Sprintf("%s#%d seen by request %d and request %d", i.kind, i.id, o, req))
+		if o == appOwner {
+			cs.shared = append(cs.shared, fmt.Sprintf("%s#%d of the application scope seen by request %d", i.kind, i.id, req))
+		} else {
+			cs.shared = append(cs.shared, fmt.Sprintf("%s#%d seen by request %d and request %d", i.kind, i.id, o, req))
+		}
 	}
 	cs.mu.Unlock()
 }
